@@ -290,4 +290,26 @@ def ev3(e, atoms):
     return None
 
 
+def alias_class(defs, name, depth=6):
+    """names connected with ``name`` by plain copies in either direction (x = name; name = y ...)"""
+    out = {name}
+    for _ in range(depth):
+        grew = False
+        for n, ds in defs.items():
+            if "." in n:
+                continue
+            for d in ds:
+                v = d.value
+                if d.kind in ("assign", "walrus") and isinstance(v, ast.Name):
+                    if v.id in out and n not in out:
+                        out.add(n)
+                        grew = True
+                    if n in out and v.id not in out:
+                        out.add(v.id)
+                        grew = True
+        if not grew:
+            break
+    return out
+
+
 __all__ = [n for n in dir() if not n.startswith("_")]
